@@ -463,8 +463,8 @@ pub fn spec() -> PropSpec {
             Family { name: "backlog", f: fam_backlog, weight: 15 },
             Family { name: "credit", f: fam_credit, weight: 15 },
         ],
-        quick_worlds: 80_000,
-        thorough_worlds: 1_200_000,
+        quick_worlds: 120_000,
+        thorough_worlds: 2_400_000,
         panic_is_violation: true,
         rule: "each world = one seeded execution: a first connection on a clean network (ticket), then a second connection whose client application starts before the handshake completes; server behaviour for the second connection drawn from accept / refuse-with-resumption / refuse-without-resumption x same or different transport parameters x Retry x late accept; fault phase (loss, duplication, reordering, ECN, late timers) begins at the second connect; non-trivial = a fault fired or the second connection had 0-RTT keys; distinct = distinct abstract-event signature",
         assumptions: vec![
